@@ -1,7 +1,11 @@
 #!/bin/sh
-# Run every check at a tier/seed; prints one status line per property. Usage: ./run_all.sh [quick|thorough] [seed]
+# Run every check at a tier/seed; prints one status line per property. Usage: ./run_all.sh [quick|thorough] [seed] [properties...]
 TIER=${1:-quick}; SEED=${2:-1}
-for p in C01 C02 C03 C04 C05 C06 C07 C08 C09 C10 C11 C12 C13 C14 C15 C16 C17 C18 C19 C20; do
-  VERIF_SEED=$SEED ./check $p --tier $TIER > .build/run_$p.log 2>&1; rc=$?
-  echo "$p rc=$rc $(grep -c '^VIOLATION' .build/run_$p.log) violations, $(grep -c '^KNOWN-FINDING' .build/run_$p.log) known | $(grep -E "^$p (quick|thorough)" .build/run_$p.log | tail -1)"
+[ $# -ge 2 ] && shift 2 || shift $#
+PROPS=${*:-C01 C02 C03 C04 C05 C06 C07 C08 C09 C10 C11 C12 C13 C14 C15 C16 C17 C18 C19 C20}
+mkdir -p .build
+for p in $PROPS; do
+  L=.build/run_${p}_${TIER}_${SEED}.log
+  VERIF_SEED=$SEED ./check $p --tier $TIER > $L 2>&1; rc=$?
+  echo "$p rc=$rc $(grep -c '^VIOLATION' $L) violations, $(grep -c '^KNOWN-FINDING' $L) known | $(grep -E "^$p (quick|thorough)" $L | tail -1)"
 done
